@@ -390,7 +390,7 @@ func r01c(c *core.Ctx) {
 		// the thin wrappers themselves (ReleaseBuf -> bytespool.Release(param), ReleaseName -> ReleaseBuf(param)) are
 		// checked through their callers
 		arg := s.Call.Common().Args[0]
-		if p, ok := core.Strip(arg).(*ssa.Parameter); ok && (s.Fn.Name() == "ReleaseBuf" || s.Fn.Name() == "ReleaseName") && p.Parent() == s.Fn {
+		if p, ok := core.Strip(arg).(*ssa.Parameter); ok && (core.CanonName(s.Fn) == "ReleaseBuf" || core.CanonName(s.Fn) == "ReleaseName") && p.Parent() == s.Fn {
 			continue
 		}
 		n++
